@@ -69,7 +69,7 @@ class RenderNode(Node):
                 var = f" with {self.var}"
 
         if self.alias:
-            var += f" as {self.alias}"
+            var += f" as {self.alias.as_source()}"
         if self.args:
             var += ","
         args = " " + ", ".join(str(arg) for arg in self.args) if self.args else ""
